@@ -148,26 +148,31 @@ def dist_fn(d, cls_name):
     return lambda th, ph: d.interface_distance(np.asarray(th, float))
 
 
-RADII = [0.5, 0.75, 1.5, 2.0, 3.25, 1.0, 5.0, 0.3125]
-SIZES = {"PerturbedDroplet2D": [2, 4, 5, 8, 8, 7], "PerturbedDroplet3D": [3, 8, 8, 15, 24, 24],
+RADII = [0.5, 0.75, 1.5, 2.0, 3.25, 1.0, 5.0, 0.3125, 2.0 ** -20, 2.0 ** 20]   # "for all radii": also across scales
+SIZES = {"PerturbedDroplet2D": [1, 2, 3, 4, 5, 8, 8, 7], "PerturbedDroplet3D": [1, 2, 3, 8, 8, 15, 24, 24],
          "PerturbedDroplet3DAxisSym": [1, 2, 3, 4, 4]}
 
 
 def rand_pattern(rng, cls_name, min_nonzero=2):
     """Amplitude pattern with entries in [-1, 1] (multiples of 1/8), several non-zero, some exactly zero."""
     n = rng.choice(SIZES[cls_name])
+    if rng.random() < 0.25:      # only the last entry non-zero (the unpaired one for odd lengths in 2-d)
+        return [0.0] * (n - 1) + [rng.choice([1, -1]) * rng.randrange(1, 9) / 8.0]
     while True:
         pat = [rng.choice([0, 0, 1, -1]) * rng.randrange(1, 9) / 8.0 for _ in range(n)]
         if sum(1 for x in pat if x) >= min(min_nonzero, n):
             return pat
 
 
-def rand_centre(rng, cls_name):
+def rand_centre(rng, cls_name, R=1.0):
+    """Centres of both signs; for radii far from 1 the centre is a multiple of the radius (otherwise the
+    cancellation in `vertex - centre` would dominate the tolerances, which are relative to the radius)."""
+    u = 1.0 if 0.25 <= R <= 8 else R
     if cls_name == "PerturbedDroplet2D":
-        return [rng.randrange(-64, 65) / 8.0, rng.randrange(-64, 65) / 8.0]
+        return [u * rng.randrange(-64, 65) / 8.0, u * rng.randrange(-64, 65) / 8.0]
     if cls_name == "PerturbedDroplet3D":
-        return [rng.randrange(-64, 65) / 8.0 for _ in range(3)]
-    return [0.0, 0.0, rng.randrange(-64, 65) / 8.0]
+        return [u * rng.randrange(-64, 65) / 8.0 for _ in range(3)]
+    return [0.0, 0.0, u * rng.randrange(-64, 65) / 8.0]
 
 
 CORPUS = [  # the replays of the repaired defects F8a-c and F15, then hand-picked multi-mode shapes
@@ -405,7 +410,7 @@ def oracle(rng, n_random, ctx=None, heavy_count=2):
     for cls_name in ("PerturbedDroplet2D", "PerturbedDroplet3D", "PerturbedDroplet3DAxisSym"):
         for i in range(n_random):
             R = RADII[(i + rng.randrange(len(RADII))) % len(RADII)]
-            todo.append((cls_name, R, rand_centre(rng, cls_name), rand_pattern(rng, cls_name)))
+            todo.append((cls_name, R, rand_centre(rng, cls_name, R), rand_pattern(rng, cls_name)))
     heavy_left = {"PerturbedDroplet3D": heavy_count}
     for cls_name, R, ctr, pat in todo:
         heavy = heavy_left.get(cls_name, 0) > 0
@@ -418,13 +423,274 @@ def oracle(rng, n_random, ctx=None, heavy_count=2):
             ctx.count("radius", R)
             ctx.count("nonzero_modes", sum(1 for x in pat if x))
             ctx.count("amplitude_array_length", len(pat))
+            nz = [i for i, x in enumerate(pat) if x]
+            ctx.count("amplitude_pattern_kind", "only the last entry non-zero" if nz == [len(pat) - 1] else
+                      ("odd length, last entry non-zero" if len(pat) % 2 and pat[-1] else "several / interior entries"))
     for cls_name, n in (("PerturbedDroplet2D", 4), ("PerturbedDroplet2D", 0), ("PerturbedDroplet3D", 8),
                         ("PerturbedDroplet3D", 0), ("PerturbedDroplet3DAxisSym", 3)):
         R = rng.choice(RADII)
-        fails += check_sphere_limit(cls_name, R, rand_centre(rng, cls_name), n, rng)
+        fails += check_sphere_limit(cls_name, R, rand_centre(rng, cls_name, R), n, rng)
         if ctx is not None:
             ctx.case(["sphere-limit", cls_name, R, n], nontrivial=False)
             ctx.count("class", cls_name + " (all amplitudes zero)")
+    return fails
+
+
+# ------------------------------------------------------------------------------------------------
+# audit stream (notes/input_dimensions.md): special directions, angle types, vertex counts, object
+# provenance, constructor argument types, width kinds, results of the wrong kind
+# ------------------------------------------------------------------------------------------------
+SUSPECTED = [
+    {"id": "interface_position-nd-angle-array",
+     "what": "interface_position with a 2-d angle array returns an array of shape (n, m, dim) whose entries mix different "
+             "angles (dist[:, None] * np.transpose([...]) is written for 1-d arrays); interface_distance and "
+             "interface_curvature are elementwise for n-d arrays"},
+]
+
+
+def probe_suspected():
+    d = make("PerturbedDroplet2D", 2.0, [1.0, -2.0], [0.05, 0.0, 0.02])
+    phi = np.array([[0.1, 0.9], [1.7, 2.5]])
+    out = {}
+    try:
+        res = np.asarray(d.interface_position(phi))
+        exp = np.array([1.0, -2.0]) + d.interface_distance(phi)[..., None] * np.stack([np.cos(phi), np.sin(phi)], -1)
+        out["interface_position-nd-angle-array"] = (f"result shape {res.shape}; max deviation from centre + distance * "
+                                                    f"(cos, sin): {float(np.abs(res - exp).max()) if res.shape == exp.shape else 'shape differs'}")
+    except Exception as e:
+        out["interface_position-nd-angle-array"] = f"raised {type(e).__name__}: {e}"
+    return out
+
+
+def _finite_real(x):
+    a = np.asarray(x)
+    return not np.iscomplexobj(a) and a.dtype.kind in "fiu" and bool(np.all(np.isfinite(a)))
+
+
+def _raises_only_not_implemented(fn):
+    """-> (value or None, failure text or None): a quantity is either reported or NotImplementedError."""
+    try:
+        return fn(), None
+    except NotImplementedError:
+        return None, None
+    except Exception as e:
+        return None, f"raised {type(e).__name__}: {e}"
+
+
+def check_structure(cls_name, R, centre, amps, rng, width, count=lambda k, v: None):
+    """Special directions, angle types, triangulation structure, provenance, kinds -- for one droplet."""
+    fails = []
+    base = {"class": cls_name, "radius": R, "position": list(centre), "amplitudes": list(amps), "interface_width": width}
+
+    def fail(what, **kw):
+        fails.append({"what": what, **base, **kw})
+
+    d = make(cls_name, R, centre, amps, width)
+    two_pi = 2 * math.pi
+    ctr = np.array(centre, dtype=float)
+    atol = 1e-12 * (R + float(np.abs(ctr).max()))
+    if cls_name == "PerturbedDroplet2D":
+        # phi = 0, 2 pi, negative and > 2 pi: own series, periodicity, positions
+        phi = np.array([0.0, two_pi, -math.pi / 3, two_pi + 0.4, 0.4, math.pi])
+        for a in phi:
+            count("angle_kind", "phi = %s" % ("0" if a == 0 else "2 pi" if a == two_pi else "negative" if a < 0
+                                              else "> 2 pi" if a > two_pi else "interior"))
+        r = shape2d(R, amps, phi)[0]
+        got = d.interface_distance(phi)
+        if not (_finite_real(got) and np.allclose(got, r, rtol=1e-12, atol=0)):
+            fail("interface_distance at phi = 0 / 2 pi / outside [0, 2 pi] is not the harmonic series", angles=phi.tolist(),
+                 got=np.asarray(got).tolist(), expected=r.tolist())
+        if not (abs(got[0] - got[1]) <= 1e-12 * R and abs(got[3] - got[4]) <= 1e-12 * R):
+            fail("interface_distance is not 2 pi periodic", angles=phi.tolist(), got=np.asarray(got).tolist())
+        pos = d.interface_position(phi)
+        want = ctr[None, :] + r[:, None] * np.stack([np.cos(phi), np.sin(phi)], axis=1)
+        if not (_finite_real(pos) and np.allclose(pos, want, rtol=0, atol=atol)):
+            fail("interface_position at phi = 0 / 2 pi / outside [0, 2 pi] is not centre + distance * (cos, sin)",
+                 angles=phi.tolist(), got=np.asarray(pos).tolist(), expected=want.tolist())
+        kc = d.interface_curvature(phi)
+        if not (_finite_real(kc) and abs(kc[0] - kc[1]) <= 1e-10 / R):
+            fail("interface_curvature is not finite / not 2 pi periodic", got=np.asarray(kc).tolist())
+        fd, fc, fp = d.interface_distance, d.interface_curvature, d.interface_position
+        args = lambda a: (a,)
+    else:
+        axis = cls_name == "PerturbedDroplet3DAxisSym"
+        f = dist_fn(d, cls_name)
+        th = np.array([0.0, math.pi, 0.0, math.pi, 0.9, 0.9, 2.1, 2.1])
+        ph = np.array([0.0, 0.0, 1.3, 2.9, 0.0, two_pi, 0.7, 0.7 + two_pi])
+        for k_ in ("north pole", "south pole", "phi = 0", "phi = 2 pi", "phi > 2 pi"):
+            count("angle_kind", k_)
+        r = f(th, ph)
+        if not _finite_real(r):
+            fail("interface_distance on the polar axis / at phi = 0, 2 pi is not finite", got=np.asarray(r).tolist())
+        else:
+            if not (abs(r[0] - r[2]) <= 1e-12 * R and abs(r[1] - r[3]) <= 1e-12 * R):
+                fail("interface_distance on the polar axis depends on phi", theta=th[:4].tolist(), phi=ph[:4].tolist(),
+                     got=r[:4].tolist())
+            if not (abs(r[4] - r[5]) <= 1e-12 * R and abs(r[6] - r[7]) <= 1e-12 * R):
+                fail("interface_distance is not 2 pi periodic in phi", theta=th[4:].tolist(), phi=ph[4:].tolist(), got=r[4:].tolist())
+            u = np.stack([np.sin(th) * np.cos(ph), np.sin(th) * np.sin(ph), np.cos(th)], axis=1)
+            pos = d.interface_position(th, ph)
+            want = ctr[None, :] + r[:, None] * u
+            if not (_finite_real(pos) and np.allclose(pos, want, rtol=0, atol=atol)):
+                fail("interface_position on the polar axis / at phi = 0, 2 pi is not centre + distance * unit vector",
+                     theta=th.tolist(), phi=ph.tolist(), got=np.asarray(pos).tolist(), expected=want.tolist())
+        tc = np.array([0.0, 1e-6, math.pi, math.pi - 1e-6])
+        pc = np.full(4, 0.8)
+        kc = np.asarray(d.interface_curvature(tc) if axis else d.interface_curvature(tc, pc), dtype=float)
+        kc = np.broadcast_to(kc, (4,))
+        if not (_finite_real(kc) and abs(kc[0] - kc[1]) <= 1e-4 / R and abs(kc[2] - kc[3]) <= 1e-4 / R):
+            fail("interface_curvature is not finite / not continuous at the poles", theta=tc.tolist(), got=kc.tolist())
+        if axis:
+            fd, fc = d.interface_distance, d.interface_curvature
+            args = lambda a: (a,)
+        else:
+            fd, fc = d.interface_distance, d.interface_curvature
+            args = lambda a: (a, a * 0 + 0.6)
+        fp = None
+    # --- angle types: Python float, numpy scalar, 0-d array, list, 2-d array (distance / curvature elementwise)
+    a0 = 0.7
+    ref_d = float(np.ravel(fd(*args(np.array([a0]))))[0])
+    ref_c = float(np.ravel(fc(*args(np.array([a0]))))[0])
+    for name, a in (("python float", a0), ("numpy float64 scalar", np.float64(a0)), ("0-d array", np.array(a0)),
+                    ("2-d array", np.array([[a0, 0.2], [1.1, a0]]))):
+        count("angle_type", name)
+        try:
+            vd, vc = np.asarray(fd(*args(a)), dtype=float), np.asarray(fc(*args(a)), dtype=float)
+            okd = abs(float(np.ravel(vd)[0]) - ref_d) <= 1e-14 * R and vd.shape in (np.shape(a), ())
+            okc = abs(float(np.ravel(vc)[0]) - ref_c) <= 1e-13 / R
+            if name == "2-d array":
+                flat = np.asarray(fd(*args(np.ravel(a))), dtype=float)
+                okd = okd and vd.shape == (2, 2) and np.allclose(np.ravel(vd), flat, rtol=1e-14, atol=0)
+            if not (okd and okc):
+                fail(f"interface_distance / interface_curvature depend on the type of the angle argument ({name})",
+                     angle=a0, distance=np.asarray(vd).tolist(), reference_distance=ref_d,
+                     curvature=np.asarray(vc).tolist(), reference_curvature=ref_c)
+        except Exception as e:
+            fail(f"interface_distance / interface_curvature raised {type(e).__name__} for an angle given as {name}: {e}")
+    # --- triangulation structure and vertex counts
+    res = rng.choice([0.25, 0.5, 1.0, 4.0, 50.0]) * R
+    count("triangulation_resolution_over_radius", res / R)
+    try:
+        tri = d.get_triangulation(res)
+        v = np.asarray(tri["vertices"], dtype=float)
+        if cls_name == "PerturbedDroplet2D":
+            n_want = max(3, int(math.ceil(float(d.surface_area) / res)))
+            lines = np.asarray(tri["lines"])
+            ok = (v.shape == (n_want + 1, 2) and lines.shape == (n_want, 2) and lines.min() >= 0 and lines.max() < n_want
+                  and np.allclose(v[0], v[-1], rtol=0, atol=atol) and _finite_real(v)
+                  and sorted(map(tuple, lines.tolist())) == sorted((i, (i + 1) % n_want) for i in range(n_want)))
+            if not ok:
+                fail("2-d triangulation: vertex count is not max(3, ceil(surface_area / resolution)) + 1 (closed polygon) or "
+                     "the lines do not form the closed chain", resolution=res, vertices=list(v.shape), lines=list(lines.shape),
+                     expected_segments=n_want)
+        else:
+            cells = np.asarray(tri["triangles"])
+            ok = (v.ndim == 2 and v.shape[1] == 3 and len(v) >= 4 and cells.ndim == 2 and cells.shape[1] == 3
+                  and cells.min() >= 0 and cells.max() < len(v) and len(np.unique(cells)) == len(v) and _finite_real(v))
+            if not ok:
+                fail("3-d triangulation: triangles do not index the vertex list exactly", resolution=res,
+                     vertices=list(v.shape), triangles=list(cells.shape))
+    except Exception as e:
+        fail(f"get_triangulation raised {type(e).__name__}: {e}", resolution=res)
+    # --- reported quantities: finite reals, or NotImplementedError (nothing reported)
+    for nm in ("volume", "surface_area", "volume_approx", "surface_area_approx"):
+        if not hasattr(type(d), nm):
+            continue
+        if nm == "volume" and cls_name == "PerturbedDroplet3D":
+            continue   # dblquad: judged in check_droplet for the heavy cases
+        val, err = _raises_only_not_implemented(lambda: getattr(d, nm))
+        count("reported_quantity", f"{cls_name}.{nm}: " + ("reported" if val is not None else "NotImplementedError" if err is None else "other exception"))
+        if err:
+            fail(f"{nm} {err}")
+        elif val is not None and not (_finite_real(val) and float(val) > 0):
+            fail(f"{nm} is not a finite positive real", got=repr(val))
+    if cls_name != "PerturbedDroplet2D":
+        d2 = make(cls_name, R, centre, amps, width)
+        try:
+            d2.volume = 1.5 * R ** 3
+            got = float(d2.volume) if cls_name == "PerturbedDroplet3D" else None
+            if got is not None and not abs(got - 1.5 * R ** 3) <= 1e-6 * R ** 3:
+                fail("volume setter accepted a value but the volume read back differs", set=1.5 * R ** 3, got=got)
+        except NotImplementedError:
+            count("reported_quantity", f"{cls_name}.volume setter: NotImplementedError")
+        except Exception as e:
+            fail(f"volume setter raised {type(e).__name__}: {e}")
+    # --- provenance of the droplet object
+    import copy
+    import os
+    import pickle
+    import tempfile
+    from droplets.emulsions import Emulsion
+
+    def from_file(x):
+        root = vlib.BUILD / "cases" / "C13"
+        root.mkdir(parents=True, exist_ok=True)
+        with tempfile.TemporaryDirectory(dir=root) as t:
+            path = os.path.join(t, "e.hdf5")
+            Emulsion([x]).to_file(path)
+            return Emulsion.from_file(path)[0]
+    provs = {"copy()": lambda x: x.copy(), "copy.deepcopy": copy.deepcopy,
+             "pickle round trip": lambda x: pickle.loads(pickle.dumps(x)),
+             "Emulsion member": lambda x: Emulsion([x])[0], "read back from an HDF5 file": from_file}
+    name = rng.choice(sorted(provs))
+    count("droplet_provenance", name)
+    try:
+        e = provs[name](make(cls_name, R, centre, amps, width))
+        same = (type(e) is type(d) and np.array_equal(np.asarray(e.amplitudes), np.asarray(d.amplitudes))
+                and abs(float(np.ravel(e.interface_distance(*args(np.array([a0]))))[0]) - ref_d) <= 1e-14 * R
+                and abs(float(np.ravel(e.interface_curvature(*args(np.array([a0]))))[0]) - ref_c) <= 1e-13 / R)
+        if not same:
+            fail(f"a droplet obtained by {name} reports a different shape than the constructed one")
+    except Exception as ex:
+        fail(f"a droplet obtained by {name} cannot be queried: {type(ex).__name__}: {ex}")
+    return fails
+
+
+def oracle_audit(rng, ctx=None, n_per_class=3):
+    fails = []
+
+    def count(k, v):
+        if ctx is not None:
+            ctx.count(k, v)
+
+    widths = [None, 0.0, 0.25]
+    for cls_name in ("PerturbedDroplet2D", "PerturbedDroplet3D", "PerturbedDroplet3DAxisSym"):
+        for i in range(n_per_class):
+            R = RADII[rng.randrange(len(RADII))]
+            pat = rand_pattern(rng, cls_name)
+            amps = [0.2 * norm_scale(cls_name, pat) * a for a in pat]
+            w = widths[(i + rng.randrange(3)) % 3]
+            count("interface_width_kind", "None" if w is None else ("0.0" if w == 0 else "value"))
+            count("audit_radius", R)
+            fails += check_structure(cls_name, R, rand_centre(rng, cls_name, R), amps, rng, w, count)
+            if ctx is not None:
+                ctx.case(["structure", cls_name, R, amps, w])
+        # constructor argument types: int radius, tuple / list / int-array arguments, amplitudes None for length 0
+        cls = _cls()[cls_name]
+        ctr = [0, 0] if cls_name == "PerturbedDroplet2D" else [0, 0, 1]
+        amp = (0.05, 0) if cls_name != "PerturbedDroplet3D" else (0.05, 0, 0.02)
+        ref = make(cls_name, 2.0, [float(c) for c in ctr], list(amp), 0.25)
+        ang = (np.array([0.7]),) if cls_name != "PerturbedDroplet3D" else (np.array([0.7]), np.array([0.6]))
+        for name, mk in (("int radius, tuple position, tuple amplitudes", lambda: cls(tuple(ctr), 2, 0.25, amp)),
+                         ("numpy scalar radius, int array position, list amplitudes",
+                          lambda: cls(np.array(ctr), np.float64(2), np.float32(0.25), list(amp)))):
+            count("constructor_argument_types", name)
+            try:
+                x = mk()
+                if not np.allclose(x.interface_distance(*ang), ref.interface_distance(*ang), rtol=1e-14, atol=0):
+                    fails.append({"what": "the shape depends on the numeric type of the constructor arguments", "class": cls_name,
+                                  "constructor": name})
+            except Exception as e:
+                fails.append({"what": f"constructor raised {type(e).__name__} for {name}: {e}", "class": cls_name})
+        for a_none in (None, []):
+            count("amplitude_array_length", "0 (amplitudes=%r)" % (a_none,))
+            try:
+                x = cls([float(c) for c in ctr], 1.5, 0.25, a_none)
+                if not (np.allclose(x.interface_distance(*ang), 1.5, rtol=1e-15, atol=0) and len(x.amplitudes) == 0):
+                    fails.append({"what": "a droplet without amplitudes is not a sphere", "class": cls_name, "amplitudes": a_none})
+            except Exception as e:
+                fails.append({"what": f"a droplet without amplitudes cannot be built / queried: {type(e).__name__}: {e}",
+                              "class": cls_name, "amplitudes": repr(a_none)})
     return fails
 
 
@@ -470,6 +736,22 @@ def _line_elements(d):
     return phis, rec[0], total
 
 
+def _sample_goals_retry(ctx, name, req, goals, unfold, tries=3):
+    """vlib.sample_goals, repeated when coqc died without any output (the signature of the kernel's OOM killer on
+    the shared machine: a real Coq error always prints a message).  Nothing is retried when Coq reported anything."""
+    import time
+    marker = f"sample goals {name}: cannot evaluate: "
+    for attempt in range(tries):
+        res = vlib.sample_goals(ctx, name, req, goals, unfold)
+        if marker in ctx.broken and attempt + 1 < tries:
+            ctx.broken.remove(marker)
+            ctx.notes.append(f"sample goals {name}: coqc died without output (killed); retried")
+            time.sleep(5 + 10 * attempt)
+            continue
+        return res
+    return res
+
+
 def _sample_goals(ctx, rng):
     from droplets.tools import spherical as sp
     R_ = vlib.rlit
@@ -485,10 +767,21 @@ def _sample_goals(ctx, rng):
         Rr = RADII[i % len(RADII)]
         n = [8, 5, 3, 6, 8, 2][i % 6]
         amps = [rng.choice([0, 1, 1, -1]) * rng.randrange(1, 13) / 256.0 for _ in range(n)]
-        ctr = rand_centre(rng, "PerturbedDroplet2D")
+        kind = "random"
+        if i == 1:
+            Rr, kind = 2.0 ** -20, "radius 2^-20"
+        elif i == 3:
+            Rr, kind = 2.0 ** 20, "radius 2^20"
+        if i % 6 == 2:      # odd length: only the unpaired last entry non-zero
+            amps, kind = [0.0] * (n - 1) + [rng.choice([1, -1]) * rng.randrange(1, 13) / 256.0], "odd length, only the last entry non-zero"
+        ctr = rand_centre(rng, "PerturbedDroplet2D", Rr)
         d = make("PerturbedDroplet2D", Rr, ctr, amps)
         L = _pairs_lit(amps)
-        for phi in (rng.randrange(0, 403) / 64.0, rng.randrange(0, 403) / 64.0):
+        angles = (rng.randrange(0, 403) / 64.0, rng.randrange(0, 403) / 64.0)
+        if i == 0:
+            angles, kind = (0.0, 2 * math.pi), "phi = 0 and 2 pi"
+        ctx.count("sample_goal_kind", kind)
+        for phi in angles:
             a = np.array([phi])
             add(f"dist2d R={Rr} amps={amps} phi={phi}", f"dist2d {R_(Rr)} {R_(phi)} {L}", d.interface_distance(a)[0])
             add(f"curv2d R={Rr} amps={amps} phi={phi}", f"curv2d {R_(Rr)} {R_(phi)} {L}", d.interface_curvature(a)[0])
@@ -523,11 +816,17 @@ def _sample_goals(ctx, rng):
             Rr = RADII[(i + 2) % len(RADII)]
             n = SIZES[cls_name][(i + 1) % len(SIZES[cls_name])]
             amps = [rng.choice([0, 1, 1, -1]) * rng.randrange(1, 13) / 256.0 for _ in range(n)]
-            ctr = rand_centre(rng, cls_name)
+            if i == 0:      # the largest array of the class, only the last entry non-zero
+                n = max(SIZES[cls_name])
+                amps = [0.0] * (n - 1) + [rng.choice([1, -1]) * rng.randrange(1, 13) / 256.0]
+                ctx.count("sample_goal_kind", f"{cls_name}: length {n}, only the last entry non-zero; north pole")
+            ctr = rand_centre(rng, cls_name, Rr)
             d = make(cls_name, Rr, ctr, amps)
             L = _list_lit(amps)
-            for _ in range(2):
+            for j in range(2):
                 th, ph = rng.randrange(20, 180) / 64.0, rng.randrange(0, 403) / 64.0
+                if i == 0 and j == 0:
+                    th = 0.0        # on the polar axis
                 ta, pa = np.array([th]), np.array([ph])
                 if cls_name == "PerturbedDroplet3D":
                     Y = [sp.spherical_harmonic_real_k(k, th, ph) for k in range(1, n + 1)]
@@ -588,8 +887,8 @@ def _sample_goals(ctx, rng):
     from concurrent.futures import ThreadPoolExecutor
     nsh = 12
     shards = [(f"c13_{i}", goals[i::nsh]) for i in range(nsh)]
-    with ThreadPoolExecutor(nsh) as ex:
-        res = list(ex.map(lambda a: vlib.sample_goals(ctx, a[0], req, a[1], ["w_one; perturbed_prep"]), shards))
+    with ThreadPoolExecutor(6) as ex:   # 6 coqc at a time (about 0.6 GB each)
+        res = list(ex.map(lambda a: _sample_goals_retry(ctx, a[0], req, a[1], ["w_one; perturbed_prep"]), shards))
     return [g for r in res for g in r]
 
 
@@ -621,6 +920,18 @@ def check(ctx: vlib.Ctx) -> int:
     except Exception as e:
         import traceback
         fails = [{"what": f"implementation raised {type(e).__name__}: {e}", "traceback": traceback.format_exc()[-600:]}]
+    try:
+        fails += oracle_audit(rng, ctx, n_per_class=ctx.scale(3, 12))
+    except Exception as e:
+        import traceback
+        fails.append({"what": f"implementation raised {type(e).__name__}: {e}", "traceback": traceback.format_exc()[-600:]})
+    try:
+        sus = probe_suspected()
+    except Exception as e:
+        sus = {"probe": f"raised {type(e).__name__}: {e}"}
+    ctx.extra["suspected_not_judged"] = [{**x, "observed": sus.get(x["id"])} for x in SUSPECTED]
+    ctx.notes.append("SUSPECTED inputs (reported to the lead, not judged): " + "; ".join(
+        f"{x['id']}: {sus.get(x['id'])}" for x in SUSPECTED))
     seen = set()
     for f in fails:
         key = (f["what"], f.get("class"))
